@@ -29,8 +29,10 @@ MAXPREC = 4000
 
 TIERS = {
     # ABS1: absolute cap of phase 1 (lines); FLOOR: smallest budget; wall: hard wall timeout per case in phase 1
-    "quick": dict(ABS1=6_000_000, FLOOR=400_000, wall1=30, wall2=180, workers=10, batch=6),
-    "thorough": dict(ABS1=60_000_000, FLOOR=400_000, wall1=300, wall2=3000, workers=10, batch=4),
+    # wall3: phase 3, an UNTRACED re-run of a case that exceeded 10x the budget inside an open-class loop: a call that returns
+    # within wall3 seconds is slow, not non-terminating (a 4000-bit polylog_general needs ~1500 expensive iterations)
+    "quick": dict(ABS1=6_000_000, FLOOR=400_000, wall1=30, wall2=180, wall3=60, workers=10, batch=6),
+    "thorough": dict(ABS1=60_000_000, FLOOR=400_000, wall1=300, wall2=3000, wall3=1800, workers=10, batch=4),
 }
 
 
@@ -126,7 +128,8 @@ def worker_main():
             args = [eval(a, ns) for a in case.get("args", [])]
             kwargs = {k: eval(v, ns) for k, v in case.get("kwargs", {}).items()}
             post = case.get("post")
-            sys.settrace(glob)
+            if not case.get("untraced"):
+                sys.settrace(glob)
             try:
                 v = fn(*args, **kwargs)
                 if post:
@@ -484,11 +487,24 @@ def search(cases, tier, log=None):
         d["budget"] = 10 * T["ABS1"]
         c2.append(d)
     r2 = run_cases(c2, T["wall2"], T["workers"], 1) if c2 else {}
+    # phase 3: the cases still over budget are run once more without tracing, against the wall clock only
+    c3 = []
+    for c in cands:
+        if r2.get(c["id"], {}).get("status") == "budget":
+            d = dict(c)
+            d["budget"] = 10 ** 18
+            d["untraced"] = True
+            c3.append(d)
+    r3 = run_cases(c3, T["wall3"], T["workers"], 1) if c3 else {}
     failing, undecided, slow = [], [], []
     for c in cands:
         a, b = r1[c["id"]], r2.get(c["id"], {"status": "missing"})
         if b["status"] in ("ok", "exc"):
             slow.append({"case": strip(c), "lines": b.get("lines"), "status": b["status"], "exc": b.get("exc")})
+            continue
+        if r3.get(c["id"], {}).get("status") in ("ok", "exc"):
+            slow.append({"case": strip(c), "lines": b.get("lines"), "status": "returned untraced after %.1f s" % r3[c["id"]].get("wall", -1),
+                         "exc": r3[c["id"]].get("exc")})
             continue
         if b["status"] != "budget":
             undecided.append({"case": strip(c), "why": b["status"]})
@@ -502,8 +518,8 @@ def search(cases, tier, log=None):
             e = open2[k]
             failing.append({
                 "site": site_of(e),
-                "what": "%s(%s) at %d bits does not return within %d traced lines (10x the budget); stuck in the %s-class loop at %s "
-                        "(%s iterations of that loop so far)" % (c["fn"], ", ".join(c["args"]), c["prec"], b["lines"], e["cls"], e["at"],
+                "what": "%s(%s) at %d bits does not return within %d traced lines (10x the budget) nor untraced within %d s; stuck in the %s-class loop at %s "
+                        "(%s iterations of that loop so far)" % (c["fn"], ", ".join(c["args"]), c["prec"], b["lines"], T["wall3"], e["cls"], e["at"],
                                                                    e.get("iterations")),
                 "input": dict(strip(c), loop=e["at"], loop_class=e["cls"], loop_key=k, lines_phase1=a["lines"], lines_phase2=b["lines"],
                               loop_iterations=e.get("iterations"), group_median_lines=med.get(c["group"])),
